@@ -57,6 +57,22 @@ def score_events(order: str, r) -> List[Dict[str, Any]]:
              'vul': v, 'decl': d, 'tricks': t}
         e.update(_call(score.calc_score, c, t))
         evs.append(e)
+        if order == 'shuffled' and k % 5 == 0:
+            # the contract reaches the scorer as a copy (a checkpoint restored, an
+            # object sent to a worker process): it must still be the same contract
+            import copy
+            import pickle
+            how = ['copy', 'deepcopy', 'pickle'][(k // 5) % 3]
+            e2 = dict(e, tid=f'{order[0]}{k}.{how}')
+            for key in ('raised', 'res', 'msg'):
+                e2.pop(key, None)
+            try:
+                c2 = copy.copy(c) if how == 'copy' else copy.deepcopy(c) if how == 'deepcopy' \
+                    else pickle.loads(pickle.dumps(c))
+                e2.update(_call(score.calc_score, c2, t))
+            except Exception as ex:  # noqa
+                e2.update({'raised': True, 'res': 0, 'msg': f'{how}: {type(ex).__name__}'})
+            evs.append(e2)
     # passed-out contracts: both spellings, every vulnerability, every count
     k = 0
     for fb in (None, Bid.Pass):
@@ -243,12 +259,32 @@ def imp_events(tier: str, r) -> List[Dict[str, Any]]:
         e.update(_call(f, d))
         evs.append(e)
     for k, mag in enumerate([2 ** 31, 2 ** 31 + 1, 2 ** 32, 2 ** 63, 2 ** 64 + 7,
-                             10 ** 30, 10 ** 100]
+                             10 ** 30, 10 ** 100,
+                             # beyond what a C double can hold
+                             2 ** 1023, 2 ** 1024, 2 ** 1024 + 1, 10 ** 400, 10 ** 1000 + 7]
                             + [r.randrange(2 ** 31, 2 ** 80) for _ in range(40)]):
         for s in (1, -1):
             e = {'tid': f'g{k}.{s}', 'ev': 'impbig', 'sign': s,
                  'digits': len(str(mag))}
             e.update(_call(f, s * mag))
+            evs.append(e)
+    # the other ways into the same functions: keyword arguments, **dict,
+    # functools.partial, bool (an int), and the two-score form with huge sums
+    import functools
+    entry = [('kw', lambda d: f(point_difference=d)),
+             ('dict', lambda d: f(**{'point_difference': d})),
+             ('partial', lambda d: functools.partial(f, point_difference=d)()),
+             ('partial-pos', lambda d: functools.partial(f, d)())]
+    for k, d in enumerate([-500, 500, -20, -10, 0, 10, 20, -4000, 4000, -7600, 1, -1, 45, -45,
+                           -1750, 1740, -2250, 3490, -3500]):
+        for name, fn in entry:
+            e = {'tid': f'k{k}.{name}', 'ev': 'imp', 'd': d, 'entry': name}
+            e.update(_call(fn, d))
+            evs.append(e)
+    for k, (a, b) in enumerate([(300, -200), (-300, 200), (-7600, -7600), (0, -20), (-20, 0), (10, -30)]):
+        for name, fn in [('kw', lambda a_, b_: g(first_score=a_, second_score=b_)), ('kw-swapped', lambda a_, b_: g(second_score=b_, first_score=a_))]:
+            e = {'tid': f'k2{k}.{name}', 'ev': 'imp2', 'a': a, 'b': b, 'entry': name}
+            e.update(_call(fn, a, b))
             evs.append(e)
     # the two-score form: sums adjacent to every threshold, equal and opposite
     # scores, scores off the 10-point grid
